@@ -324,7 +324,7 @@ pub fn check(s: &'static dyn Proto, c: &Case, st: &mut Stats, _k: &KnownFindings
 
 pub const BUDGET: Budget = Budget {
     quick: (400, 150, 50),
-    thorough: (3000, 1000, 300),
+    thorough: (9000, 3000, 900),
     shrink: 120,
 };
 
